@@ -2138,6 +2138,8 @@ func GenerateExternalNameSvcKey(namespace string, service string) string {
 }
 
 func generateLBMethod(method string, defaultMethod string) string {
+	// the validator (ParseLBMethod) ignores surrounding white space, so must the generator
+	method = strings.TrimSpace(method)
 	if method == "" {
 		return defaultMethod
 	} else if method == "round_robin" {
